@@ -16,6 +16,7 @@ import (
 	"os"
 	"os/exec"
 	"path/filepath"
+	"strconv"
 	"strings"
 	"sync"
 	"sync/atomic"
@@ -46,6 +47,18 @@ func freePort() string {
 }
 
 func startBroker(tag string) (*broker, error) {
+	var lastErr error
+	for attempt := 0; attempt < 5; attempt++ {
+		b, err := startBrokerOnce(fmt.Sprintf("%s-%d", tag, attempt))
+		if err == nil {
+			return b, nil
+		}
+		lastErr = err
+	}
+	return nil, lastErr
+}
+
+func startBrokerOnce(tag string) (*broker, error) {
 	bin := filepath.Join(os.Getenv("VERIF_BIN"), "broker")
 	dir, err := ioutil.TempDir(os.Getenv("VERIF_SCRATCH"), "c14-"+tag+"-")
 	if err != nil {
@@ -70,6 +83,14 @@ func startBroker(tag string) (*broker, error) {
 		return nil, err
 	}
 	go func() { b.cmd.Wait(); close(b.exited) }()
+	// the listener on the chosen port must belong to this process (another check
+	// running at the same time may have taken the port in between)
+	_, portStr, _ := net.SplitHostPort(b.addr)
+	port, _ := strconv.Atoi(portStr)
+	if !vlib.WaitListener(b.cmd.Process.Pid, port, 20*time.Second, func() bool { return !b.alive() }) {
+		b.stop()
+		return nil, fmt.Errorf("broker process does not own a listener on %s", b.addr)
+	}
 	for i := 0; i < 400; i++ {
 		c, err := net.DialTimeout("tcp", b.addr, time.Second)
 		if err == nil {
